@@ -150,7 +150,7 @@ def bounded(tier, seed):
     f = reuse_case()
     if f:
         return n, f, {'case': 'known-interface reuse'}
-    for s in range(400 if tier == 'thorough' else 80):
+    for s in range(6000 if tier == 'thorough' else 80):
         n += 1
         f = roundtrip_case(rnd, pool, rnd.choice([1, 1, 2, 3]))
         if f:
@@ -166,7 +166,7 @@ def replay(function, clause, model):
 def run_bounded(tier, seed):
     n, f, inp = bounded(tier, seed)
     return {'tool': 'generate -> parse -> compare on the real txdbus.interface / txdbus.introspection, counts against the reference grammar',
-            'bound': '%d generated objects with 1-3 interfaces of 0-6 methods, signals and properties each; signatures = sequences of up to 3 complete types of length <= 5 from the full grammar; all access and notification modes; proxy argument-count acceptance; known-interface reuse' % (400 if tier == 'thorough' else 80),
+            'bound': '%d generated objects with 1-3 interfaces of 0-6 methods, signals and properties each; signatures = sequences of up to 3 complete types of length <= 5 from the full grammar; all access and notification modes; proxy argument-count acceptance; known-interface reuse' % (6000 if tier == 'thorough' else 80),
             'evaluations': n, 'failures': [] if not f else [{'function': 'txdbus.interface / txdbus.introspection', 'clause': 'xml-round-trip', 'input': inp, 'detail': f}]}
 
 
